@@ -10,7 +10,9 @@ import (
 )
 
 func TestMain(m *testing.M) {
-	zerolog.SetGlobalLevel(zerolog.Disabled) // keepers log every rejected tx
+	if os.Getenv("VERIF_LOGS") == "" {
+		zerolog.SetGlobalLevel(zerolog.Disabled) // keepers log every rejected tx
+	}
 	code := m.Run()
 	ev.Flush()
 	os.Exit(code)
